@@ -1,8 +1,7 @@
 (* Conc/PipelineLiveGen4.v — the invariant of the whole system, part 4: owners, pending completions,
    helpers, the stall protocol, the background flags (committer steps) *)
 From Coq Require Import List Arith Bool Lia.
-From SKV Require Import Conc.Pipeline Conc.PipelineExplore Conc.PipelineSpec Conc.PipelineLiveCore Conc.PipelineLiveCore2
-  Conc.PipelineLiveCore3 Conc.PipelineLiveCore4 Conc.PipelineLiveGen.
+From SKV Require Import Conc.Pipeline Conc.PipelineExplore Conc.PipelineSpec Conc.PipelineLiveBase Conc.PipelineLiveGen.
 Import ListNotations.
 
 Lemma ownsP_my : forall p u n, ownsP p u = true -> t_my u = Some n -> n = p.
@@ -206,7 +205,48 @@ Proof.
   pose proof (g_bgi c s HI) as Hbg.
   gstart c s i t l H HI Ht.
   all: psimpl; try rewrite Hr6; try exact Hbg.
-  destruct Hbg as [B1 [B2 [B3 [B4 [B5 [B6 [B7 B8]]]]]]]. unfold BGI. simpl.
+  destruct Hbg as [B1 [B2 [B3 [B4 [B5 [B6 [B7 [B8 [B9 B10]]]]]]]]]. unfold BGI. simpl.
   split; [exact B1|]. split; [exact B2|]. split; [exact B3|]. split; [exact B4|]. split; [exact B5|].
-  split; [exact B6|]. split; [exact B7|]. intros Hx. destruct (B8 Hx) as [_ Hn2]. split; auto.
+  split; [exact B6|]. split; [exact B7|]. split; [|split; [exact B9|auto]].
+  intros Hx. destruct (B8 Hx) as [_ Hn2]. split; auto.
+Qed.
+
+Lemma nrot_set_nth : forall l i t x, nth_error l i = Some t ->
+  nrot (set_nth i x l) + (match t_pc t with CRotated => 1 | _ => 0 end) = nrot l + (match t_pc x with CRotated => 1 | _ => 0 end).
+Proof.
+  induction l; intros [|i] t x H; simpl in *; try discriminate.
+  - injection H as ->. lia.
+  - specialize (IHl i t x H). lia.
+Qed.
+
+Lemma acc_gframe : forall c s s0 i t x, GInv c s -> thr_at s i t -> thrs s0 = thrs s ->
+  g_fpc (bg s0) = g_fpc (bg s) -> g_fpermit (bg s0) = g_fpermit (bg s) -> g_ffailed (bg s0) = g_ffailed (bg s) ->
+  g_imm (bg s0) = g_imm (bg s) -> (t_pc t = CRotated -> t_pc x = CRotated) -> ACC (put_thr s0 i x).
+Proof.
+  intros c s s0 i t x HI Ht Hth Hf Hp Hff Him Hx. unfold ACC. psimpl. rewrite Hf, Hp, Hff, Him, Hth.
+  intros H1 H2 H3. pose proof (g_acc c s HI H1 H2 H3) as Ha.
+  pose proof (nrot_set_nth (thrs s) i t x Ht) as Hn.
+  destruct (t_pc t) eqn:E; try lia. rewrite (Hx eq_refl) in Hn. lia.
+Qed.
+
+Ltac rot_cond Hpc :=
+  simpl; rewrite ?Hpc; intros Hx;
+  repeat match goal with |- context [if ?b then _ else _] => destruct b end;
+  solve [ discriminate Hx | reflexivity | exact Hx ].
+
+Lemma acc_gstep : forall c s i t l s', GInv c s -> thr_at s i t -> step_commit c s i t l = Some s' -> ACC s'.
+Proof.
+  intros c s i t l s' HI Ht H.
+  gstart c s i t l H HI Ht.
+  all: try exact (g_acc c s HI).
+  all: try solve [eapply acc_gframe; try exact HI; try exact Ht; psimpl; simpl; rewrite ?Hr6; auto; rot_cond Hpc].
+  - (* LRotated: one more immutable memtable, one more committer at CRotated *)
+    unfold ACC. psimpl. simpl. intros H1 H2 H3. pose proof (g_acc c s HI H1 H2 H3) as Ha.
+    pose proof (nrot_set_nth (thrs s) i t (with_pc t CRotated) Ht) as Hn. rewrite Hpc in Hn. simpl in Hn. lia.
+  - (* LWakeMem: the permit is set *)
+    unfold ACC. psimpl. simpl. intros _ H2. discriminate H2.
+  - (* LApplyWoke without a wake-up: the flush task is running *)
+    unfold ACC. psimpl. intros H1 _ _. exfalso.
+    destruct (g_bgi c s HI) as [_ [_ [_ [_ [B5 _]]]]]. specialize (B5 Hg).
+    destruct H1 as [H1|H1]; rewrite H1 in B5; discriminate B5.
 Qed.
